@@ -346,6 +346,12 @@ func kindProgram(c *Ctx, k kindInfo, nrand int) (string, []probe) {
 				ps = append(ps, probe{nil, gcShiftK(k, "Shr", r, 1), fmt.Sprintf("(%s(%s) %s %s) >> 1", k.name, x, op.sym, y), mk(fmt.Sprintf("(x %s y) >> 1", op.sym))})
 				ps = append(ps, probe{nil, gcBinK(k, "Quo", r, big.NewInt(3)), fmt.Sprintf("(%s(%s) %s %s) / 3", k.name, x, op.sym, y), mk(fmt.Sprintf("(x %s y) / 3", op.sym))})
 			}
+			for _, cm := range []struct{ name, sym string }{{"Ceq", "=="}, {"Cne", "!="}, {"Clt", "<"}, {"Cle", "<="}, {"Cgt", ">"}, {"Cge", ">="}} {
+				fmt.Fprintf(&b, "\tif x %s y {\n\t\tt.P(true)\n\t} else {\n\t\tt.P(false)\n\t}\n", cm.sym)
+				c := x.Cmp(y)
+				r := map[string]bool{"Ceq": c == 0, "Cne": c != 0, "Clt": c < 0, "Cle": c <= 0, "Cgt": c > 0, "Cge": c >= 0}[cm.name]
+				ps = append(ps, probe{[]string{"cmp", cm.name, code, x.String(), y.String()}, fmt.Sprint(r), fmt.Sprintf("%s(%s) %s %s", k.name, x, cm.sym, y), ""})
+			}
 			if y.Sign() != 0 {
 				fmt.Fprintf(&b, "\tt.P(x / y)\n\tt.P(x %% y)\n")
 				ps = append(ps, probe{[]string{"binop", "Quo", code, x.String(), y.String()}, gcBinK(k, "Quo", x, y), fmt.Sprintf("%s(%s) / %s", k.name, x, y), ""})
@@ -444,6 +450,9 @@ func caseProgram(cs []any) string {
 		} else {
 			body = fmt.Sprintf("\tvar x, y %s = %s, %s\n\tt.P(x %s y)\n", kname(f[2]), f[3], f[4], sym[f[1]])
 		}
+	case "cmp":
+		csym := map[string]string{"Ceq": "==", "Cne": "!=", "Clt": "<", "Cle": "<=", "Cgt": ">", "Cge": ">="}
+		body = fmt.Sprintf("\tvar x, y %s = %s, %s\n\tif x %s y {\n\t\tt.P(true)\n\t} else {\n\t\tt.P(false)\n\t}\n", kname(f[2]), f[3], f[4], csym[f[1]])
 	case "neg":
 		body = fmt.Sprintf("\tvar x %s = %s\n\tt.P(-x)\n", kname(f[1]), f[2])
 	case "subinv":
